@@ -6,6 +6,7 @@ import EraVerif.Proofs.C10Verify
 import EraVerif.Proofs.C10Votes
 import EraVerif.Model.C10Frame
 import EraVerif.Model.C10Canon
+import EraVerif.Model.C10Store
 
 /-!
 # C10 — No input from the network can crash a node
@@ -644,6 +645,90 @@ example :
        .commit ⟨some 1, true, ⟨⟨0, 0, 5⟩, ⟨1, 7⟩⟩⟩, .commit ⟨some 2, true, ⟨⟨0, 0, 5⟩, ⟨1, 7⟩⟩⟩]).bind
       (fun r => .ok (r.1.view, r.2)) =
     .ok (6, [.accepted, .rejected "DuplicateSigner", .accepted, .accepted]) := by decide
+
+/-! ## 8. What runs after a well-formed gossip message was accepted: `BlockStoreState` on the peer's numbers -/
+
+/-- **contains_total.** For every announced state — verified or not, empty or not, any `first`, any `last` up to
+`2⁶⁴−1` — and every requested block number, `BlockStoreState::contains` (evaluated by the block fetcher on the
+peer-supplied state, `gossip/fetch.rs:97`) returns without panicking. -/
+theorem contains_total (s : Store.BSS) (n : Nat) : (Store.contains s n).isPanic = false := by
+  unfold Store.contains; cases s.last <;> rfl
+
+/-- exact value: the number lies in the closed range `[first, last]` of a non-empty store -/
+theorem contains_spec (s : Store.BSS) (n : Nat) :
+    Store.contains s n = .ok true ↔ ∃ last, s.last = some last ∧ s.first ≤ n ∧ n ≤ last := by
+  unfold Store.contains
+  cases hl : s.last with
+  | none => simp
+  | some l =>
+    simp only [Option.some.injEq, exists_eq_left']
+    constructor
+    · intro h
+      have : (decide (s.first ≤ n) && decide (n ≤ l)) = true := by injection h
+      simpa using this
+    · intro ⟨a, b⟩
+      simp [a, b]
+
+/-- **next_panics_iff.** `BlockStoreState::next` panics exactly on a store whose last block is `2⁶⁴−1`. -/
+theorem next_panics_iff (s : Store.BSS) (hl : ∀ l, s.last = some l → l < U64) :
+    (Store.next s).isPanic = true ↔ s.last = some 18446744073709551615 := by
+  unfold Store.next
+  cases h : s.last with
+  | none => simp [Res.isPanic]
+  | some l =>
+    have := hl l h
+    unfold blockNext U64 at *
+    by_cases hm : l + 1 < 18446744073709551616
+    · simp only [hm, if_true, Res.isPanic, Option.some.injEq]
+      constructor
+      · intro h'; cases h'
+      · intro h'; omega
+    · simp only [hm, if_false, Res.isPanic, Option.some.injEq, true_iff]
+      omega
+
+theorem verify_ok_iff (s : Store.BSS) :
+    Store.verify s = .ok () ↔ ∀ l, s.last = some l → s.first ≤ l := by
+  unfold Store.verify
+  cases h : s.last with
+  | none => simp
+  | some l =>
+    by_cases hf : s.first ≤ l
+    · simp [hf]
+    · simp [hf]
+
+/-- `head` is total by construction (`prev().unwrap_or(0)`); its value -/
+theorem head_spec (s : Store.BSS) :
+    Store.head s = match s.last with | some l => l | none => s.first - 1 := by
+  unfold Store.head
+  cases s.last with
+  | some l => rfl
+  | none => simp only []; split <;> omega
+
+/-- **The closed-range form is load-bearing.** Writing `contains` as `first ≤ n ∧ n < next()` gives the same answer on
+every state whose last block is below `2⁶⁴−1`, but on the *verified* announcement `{first: 0, last: 2⁶⁴−1}` it
+panics for every requested number at or above `first` — the seeded fault C10-1. -/
+theorem contains_via_next_panics :
+    Store.verify ⟨0, some 18446744073709551615⟩ = .ok () ∧
+    (Store.containsViaNext ⟨0, some 18446744073709551615⟩ 0).isPanic = true ∧
+    Store.contains ⟨0, some 18446744073709551615⟩ 0 = .ok true := by decide
+
+theorem contains_via_next_agrees (s : Store.BSS) (n : Nat) (h : ∀ l, s.last = some l → l + 1 < U64) :
+    Store.containsViaNext s n = Store.contains s n := by
+  unfold Store.containsViaNext Store.contains Store.next
+  cases hl : s.last with
+  | none =>
+    simp only []
+    split
+    · simp [Res.bind]; omega
+    · rfl
+  | some l =>
+    have h1 := h l hl
+    simp only [blockNext, h1, if_true]
+    split
+    · rename_i hf
+      simp [Res.bind, hf]; omega
+    · rename_i hf
+      simp [hf]
 
 /-- **F6 (known, profile-dependent).** `ViewNumber::next` wraps in the shipping profile and panics with overflow
 checks; it runs in the queue selection function and in `on_new_view` / `on_proposal` *before* any verification,
